@@ -37,6 +37,7 @@ func init() {
 	reg(propC15Dec)
 	reg(propC15Grammar)
 	reg(propC15Muxer)
+	reg(propC15LL)
 	reg(propC16)
 	reg(propC17)
 	reg(propC18)
